@@ -156,9 +156,20 @@ def log_problems(scenario, r):
     return out
 
 
+def intruder_problems(scenario, r):
+    """Every inadmissible connection attempt made during admission is answered with one error line and closed."""
+    out = []
+    for it, log in zip(scenario.get('intruders') or [], getattr(r, 'intruder_logs', [])):
+        lines = [t for d, t in log if d == '<']
+        if not (len(lines) == 2 and lines[1] is None and lines[0] is not None and 'error' in lines[0].lower()):
+            out.append(('an inadmissible connection attempt during admission was not answered with exactly one error line and then closed',
+                        {'attempt': it, 'received': lines[:4]}))
+    return out
+
+
 def transcript_problems(scenario, r):
     """C10 oracle: the complete server->client stream of each connection, as events, plus the global-clock rule."""
-    out = stream_problems(scenario, r)
+    out = intruder_problems(scenario, r) + stream_problems(scenario, r)
     out.extend(dummy_timing_problems(scenario, r))
     return out
 
@@ -282,8 +293,10 @@ def scenario_features(scenario, schedule):
             m.play(c)
     if len(scenario['boards']) > 1:
         f.add('>=2 boards')
-    if schedule.get('kind') != 'sequential' or schedule.get('stalls'):
+    if schedule.get('kind') != 'sequential' or schedule.get('stalls') or schedule.get('starve'):
         f.add('non-sequential schedule')
+    if schedule.get('starve'):
+        f.add('schedule that starves one task')
     if schedule.get('stalls'):
         f.add('schedule with stalls')
     if scenario.get('fmt', {}).get('alerts'):
@@ -292,6 +305,8 @@ def scenario_features(scenario, schedule):
         f.add('non-default letter case')
     if scenario.get('split'):
         f.add('split deliveries')
+    if scenario.get('intruders'):
+        f.add('admission with connection attempts that are turned away')
     return f
 
 
@@ -360,8 +375,10 @@ def reduce_violation(check_session, v, budget_s=25.0):
             if attempt(sc2, sched, ex2):
                 changed = True
                 break
-    for key, val in (('fmt', {}), ('split', None), ('arrival', [0, 1, 2, 3]), ('teams', ['a', 'b'])):
+    for key, val in (('intruders', []), ('fmt', {}), ('split', None), ('arrival', [0, 1, 2, 3]), ('teams', ['a', 'b'])):
         sc, sched, extra = cur()
+        if key == 'arrival' and sc.get('intruders'):
+            continue            # the intruders' prerequisites refer to the arrival order
         if sc.get(key) != val and not (key == 'fmt' and 'policy' in extra):
             attempt(dict(sc, **{key: val}), sched, extra)
     sc, sched, extra = cur()
@@ -524,7 +541,8 @@ def bundled_scenario(draw, max_boards=3):
     n = draw(st.integers(1, max_boards))
     boards = [{'id': draw(GS.ID_TEXT), 'dealer': draw(st.integers(0, 3)), 'vul': draw(st.sampled_from(['None', 'NS', 'EW', 'Both'])),
                'owner': draw(PL.DEAL), 'dda': None, 'calls': [], 'cards': []} for _ in range(n)]
-    return {'boards': boards, 'teams': [draw(GS.TEAM), draw(GS.TEAM)], 'arrival': draw(permutations([0, 1, 2, 3])), 'fmt': {}}
+    return {'boards': boards, 'teams': [draw(GS.TEAM), draw(GS.TEAM)], 'arrival': draw(permutations([0, 1, 2, 3])), 'fmt': {},
+            'split': draw(st.one_of(st.none(), st.none(), st.lists(st.integers(1, 9), min_size=1, max_size=5)))}
 
 
 def plan_c11(tier):
